@@ -179,6 +179,9 @@ func installHooks() {
 		}
 	}
 	starlark.VerifExec = func(th *starlark.Thread, op uint8) {
+		if memBlown.Load() {
+			th.Cancel("sim-memory-watchdog")
+		}
 		c := ctxOf(th)
 		if c == nil {
 			return
